@@ -77,7 +77,7 @@ def gen_case(r, cid, source, chain, lens, big=False):
         term = "ci:%s:%s" % (r.choice("vsf"), "/".join(map(str, old)) if old else "-")
     elif term in ("find", "findix", "any", "all"):
         term = term + ":" + rnd_filf(r)
-    ops = ["N:%d" % nt1, "%s:%d" % cs1] + stages + ["N:%d" % nt2, "%s:%d" % cs2]
+    ops = ["N:%d" % nt1, "%s:%d" % cs1] + stages + ["%s:%d" % cs2, "N:%d" % nt2]
     known = 1 if gen_harness.SOURCES[source][2] else 0
     sched = [r.randrange(0, 6) for _ in range(r.choice([0, 5, 20, 60]))]
     line = "id=%d shape=%s known=%d in=%s ops=%s term=%s avail=%d sched=%s fuel=100000" % (
@@ -95,6 +95,8 @@ def gen_cases(tier, seed, shapes=None, per_shape=None):
     cases = []
     cid = 0
     for (src, ch) in gen_harness.all_shapes():
+        if src == "endless":
+            continue
         if shapes is not None and gen_harness.shape_name(src, ch) not in shapes:
             continue
         for k in range(per_shape):
@@ -123,7 +125,7 @@ def full_log_case(line):
     f = fields(line)
     t = f["term"].split(":")
     parts = f["ops"].split(";")
-    parts[-2] = "N:1"            # the terminal itself runs sequentially: no schedule involved
+    parts[-1] = "N:1"            # the terminal itself runs sequentially: no schedule involved
     if t[0] in ("find", "findix", "any", "all"):
         parts.append(":".join(t[1:]))
     elif t[0] == "fe":
@@ -220,7 +222,7 @@ def analyse(cases, impl, model, full):
         af, mf, ff = fields(a), fields(m), fields(fl)
         term = cf["term"].split(":")[0]
         ops = cf["ops"].split(";")
-        nt1, nt2 = nt_of(ops[0]), nt_of(ops[-2])
+        nt1, nt2 = nt_of(ops[0]), nt_of(ops[-1])
         cur.update({"term": term, "seq": nt2 == 1, "sites": mf.get("sites", "-")})
         out["dist"]["term_" + term] += 1
         out["dist"]["src_" + cf["shape"].split("_")[0]] += 1
@@ -239,6 +241,8 @@ def analyse(cases, impl, model, full):
         ip = af["params"].split("|")[0]
         if ip != mf["params"]:
             mism("params", c, af["params"], mf["params"])
+        if af.get("pmid", "?").split("|")[0] != mf.get("pmid", "?"):
+            mism("params", c, "after the stages: " + af.get("pmid", "?"), "after the stages: " + mf.get("pmid", "?"))
         if af["kind"] != mf["kind"]:
             mism("kind", c, af["kind"], mf["kind"])
         iseq = af["params"].endswith("|1")
@@ -318,8 +322,9 @@ def analyse(cases, impl, model, full):
                 sizes = [] if t[6][5:] == "-" else [int(x) for x in t[6][5:].split("/")]
                 if any(s != want for s in sizes):
                     oracle("C11", c, "Exact chunk size not handed to every worker", run)
-        cs2 = ops[-1].split(":")
-        if cs2[0] == "C" and int(cs2[1]) > 0 and runs and nt2 != 1:
+        cs2 = ops[-2].split(":")
+        n_eager = 0 if mf.get("sites", "-") == "-" else len(mf["sites"].split(","))
+        if cs2[0] == "C" and int(cs2[1]) > 0 and len(runs) > n_eager and nt2 != 1:
             t = runs[-1].split(":")
             want = int(cs2[1])
             ln = t[4][3:]
